@@ -20,9 +20,10 @@ import (
 
 // CrashHistory: a prepared state (built and acknowledged before any crash point) and a history of write operations.
 type CrashHistory struct {
-	Name string
-	Prep []m.Op
-	Ops  []m.Op
+	Name   string
+	Prep   []m.Op
+	Ops    []m.Op
+	Stride int // > 1: only every Stride-th store call is a crash point (histories with thousands of calls)
 }
 
 func copyFile(src, dst string) error {
@@ -159,7 +160,13 @@ func CrashSnapshots(run *ev.Run, hs []*CrashHistory, ownTags map[string]bool) {
 			snaps = append(snaps, snap{k: k, acked: acked, inflight: inflight, dir: d})
 			k++
 		}
-		in.V.Hook = func(c vstore.Call) { take() }
+		ncall := 0
+		in.V.Hook = func(c vstore.Call) {
+			ncall++
+			if h.Stride <= 1 || ncall%h.Stride == 0 {
+				take()
+			}
+		}
 		for i, o := range h.Ops {
 			inflight = i
 			drv.Exec(in, o)
@@ -288,7 +295,9 @@ func CrashKills(run *ev.Run, exe, backend string, hs []*CrashHistory, ownTags ma
 		}
 		os.RemoveAll(d)
 		for k := 0; k < calls; k++ {
-			tasks = append(tasks, task{h, k})
+			if h.Stride <= 1 || k%h.Stride == 0 {
+				tasks = append(tasks, task{h, k})
+			}
 		}
 	}
 	scratches := map[int]*drv.Inst{}
